@@ -96,7 +96,9 @@ class ListEnv(ScriptEnv):
 
 def limits(timeout_s: float) -> dict[str, int]:
     ms = int(round(timeout_s * 1000))
-    return {"pendTol": 10, "pendEnd": 1000, "silTol": min(ms, 20000), "silEnd": 10 * max(ms, 20000)}
+    # silence after a pending: a reply within the EFFECTIVE request timeout is "received in time" (the statement:
+    # "silence limit (currently max(timeout, 20 s))"), so the whole caller timeout must be tolerated
+    return {"pendTol": 10, "pendEnd": 1000, "silTol": ms, "silEnd": 10 * max(ms, 20000)}
 
 
 def execute(env: ScriptEnv, *, client_retry: int, override_retry: int | None,
